@@ -1,5 +1,5 @@
 """C14 -- resize, pad and trim keep data centred and attached to its coordinates."""
-import itertools, contextlib
+import itertools, contextlib, copy
 from fractions import Fraction
 import numpy as np
 from harness.common import cz, cq, cbool, clist, ctup, copt, cres, call_res, import_aa
@@ -18,24 +18,38 @@ RULE = ("exhaustive enumeration (see exhaustive_subspace) of (input shape, targe
         "with buffers 0..2 through Mask2D.zoom_region / Array2D.zoomed_around_mask; Imaging.apply_mask (automatic "
         "padding) over masks, kernels, pixel scales and origins observing .data/.noise_map/.grids.uniform/.mask; "
         "Mask2D.resized_from + Grid2D.from_mask for the coordinate clause; Imaging.apply_mask followed by "
-        "AbstractDataset.trimmed_after_convolution_from on inputs that get padded; plus a random stream of larger shapes. "
+        "AbstractDataset.trimmed_after_convolution_from on inputs that get padded; the output geometry of the zoom routines "
+        "(Array2D.zoomed_around_mask: shape / pixel scales / origin for buffers -3..3; Mask2D.mask_centre, zoom_centre, "
+        "zoom_offset_pixels, zoom_offset_scaled, zoom_shape_native, zoom_mask_unmasked) over all small masks and 9 geometries "
+        "(anisotropic, asymmetric origins, pixel scales 2**-30 .. 2**21); HISTORIES on one object: an Array2D observed 6-12 "
+        "times (same shape with both mask pad values, pad, trim, zoom) with in-place edits arr[...] = v in between, a Mask2D "
+        "read / edited mask[y, x] = ... / re-read, an Imaging dataset masked several times, re-masked from a masked / padded / "
+        "trimmed result, its data edited in place; every array under test is built in 7 ways (fresh, .native, "
+        "store_native=True, from slim values, result of arithmetic, deep copy, general.yaml native_binned_only=True) and the "
+        "data of Imaging in 6; values are integers (including 0 and 31-bit mantissas) times 2**sc, sc in {0, -40, 40, -70, 30}; "
+        "every call is followed by a fingerprint comparison of the objects the caller still holds; plus a random stream of larger shapes. "
         "Every case is non-trivial (it runs an anchored routine); distinct = distinct JSON input.")
 EXHAUSTIVE = {
     "quick": "util resize: all shapes 1..5 x 1..5 to all targets 0..6 x 0..6; Array2D/Mask2D.resized_from: shapes 1..4^2 to "
              "targets 1..6^2 (mask drawn per case); pad / trim / pad-then-trim / trimmed_array_from: shapes 1..4^2 x kernels "
              "{1,3,5,7}^2; enlarge-then-shrink: shapes 1..4^2 x enlargements 0..3 per axis; zoom: every mask with H*W <= 7, "
-             "buffer cycling 0,1,2; apply_mask: every mask with H*W <= 6 with kernel (3,3)",
+             "buffer cycling 0,1,2 (negative buffers -1,-2 on every third); zoom geometry (mask properties and "
+             "zoomed_around_mask's mask with buffers cycling 0,1,-1,2,-2,0,-3) for the same masks; apply_mask: every mask with H*W <= 6 with kernel (3,3)",
     "thorough": "util resize: shapes 1..8^2 to targets 0..9^2; Array2D/Mask2D.resized_from: shapes 1..7^2 to targets 1..9^2; "
                 "pad/trim family: shapes 1..6^2 x kernels {1,3,5,7}^2; enlarge-then-shrink: shapes 1..6^2 x enlargements 0..4; "
-                "zoom: every mask with H*W <= 9 (each buffer 0,1,2 up to H*W <= 8, cycling above); apply_mask: every mask with H*W <= 8, kernels (3,3),(1,5),(5,3)",
+                "zoom: every mask with H*W <= 9 (each buffer 0,1,2 up to H*W <= 8, cycling above), zoom geometry for the same masks; apply_mask: every mask with H*W <= 8, kernels (3,3),(1,5),(5,3)",
 }
-TRUSTED = ["correspondence harness harness/c14.py (exact: integer data, dyadic pixel scales / origins, outputs converted with Fraction)",
+TRUSTED = ["correspondence harness harness/c14.py (exact: integer data times powers of two, dyadic pixel scales / origins, outputs converted with "
+           "Fraction); for histories with in-place edits the harness tracks which content a re-masked dataset refers to (the live unmasked "
+           "dataset, or the snapshot held by a dataset whose own mask is all False)",
            "numpy slicing a[lo:hi] (Model.C14.pyslice incl. negative bounds), element-wise array *= invert(mask) "
            "(Model.C14.mask_apply), np.where/amin/amax (Model.C14.zoom_region), bool<->float casts of Mask2D.resized_from",
            "Array2D slim<->native storage (property C01): the model keeps the native array; the harness reads .native/.slim"]
 ASSUMPTIONS = ["kernels of the proved clauses are odd and >= 1 per axis (the property's quantifier); even kernels are exercised for "
                "correspondence only (the automatic padding then changes parity and shifts coordinates by half a pixel)",
-               "target shapes >= 0, buffers >= 0, noise maps positive on unmasked pixels (Imaging's own check), pixel scales non-zero",
+               "target shapes >= 0, noise maps positive on unmasked pixels (Imaging's own check), pixel scales non-zero; "
+               "Mask2D.trimmed_array_from with an image shape LARGER than the mask (negative pad sizes, python negative slice indices) is "
+               "exercised for correspondence only",
                "array values arbitrary (theorems polymorphic in the element type / over R); correspondence uses integers"]
 
 _tally = {}
@@ -73,7 +87,7 @@ def values(h, w, rng, lo=-9, hi=9, wide=False):
         return rng.choice(pool)
     return [[one() for _ in range(w)] for _ in range(h)]
 DVS = ["fresh", "native", "sn", "arith", "resized", "cfg"]           # how the data / noise map of an Imaging were obtained
-VARS = ["fresh", "native", "sn", "slim", "arith", "cfg"]          # how the Array2D under test was obtained
+VARS = ["fresh", "native", "sn", "slim", "arith", "cfg", "copy"]          # how the Array2D under test was obtained
 SCS = [0, -40, 0, 40, 0, -70, 30]                                  # values are integers times 2**sc
 def rmask(h, w, rng, p=None):
     p = rng.choice([0.0, 0.3, 0.6, 0.85]) if p is None else p
@@ -115,7 +129,7 @@ def gen_inputs(tier, rng):
         for r0, r1 in itertools.product(range(1, R + 1), repeat=2):
             i += 1
             yield {"op": "arr_resize", "a": [values(h, w, rng, wide=True), rmask(h, w, rng)], "rs": [r0, r1], "mpv": i % 2,
-                   "var": VARS[i % 6], "sc": SCS[i % 7]}
+                   "var": VARS[i % len(VARS)], "sc": SCS[i % 7]}
             yield {"op": "mask_resize", "m": rmask(h, w, rng, 0.5), "rs": [r0, r1], "padv": [0, 1, 0, 2, -1][i % 5]}
             if (r0 - h) % 2 == 0 and (r1 - w) % 2 == 0 or i % 4 == 0:
                 yield {"op": "resize_coords", "m": rmask(h, w, rng, 0.4), "rs": [r0, r1], "g": list(GEOMS[i % len(GEOMS)])}
@@ -128,7 +142,7 @@ def gen_inputs(tier, rng):
         for k0, k1 in itertools.product(ODD, repeat=2):
             i += 1
             a = [values(h, w, rng, wide=True), rmask(h, w, rng)]
-            vs = {"var": VARS[i % 6], "sc": SCS[i % 7]}
+            vs = {"var": VARS[i % len(VARS)], "sc": SCS[i % 7]}
             yield {"op": "arr_pad", "a": a, "k": [k0, k1], "mpv": i % 2, **vs}
             yield {"op": "arr_trim", "a": [values(h, w, rng, wide=True), rmask(h, w, rng)], "k": [k0, k1], **vs}
             yield {"op": "pad_trim", "a": a, "k": [k0, k1], "mpv": (i // 2) % 2, **vs}
@@ -142,7 +156,7 @@ def gen_inputs(tier, rng):
         for e0, e1 in itertools.product(range(0, 5 if big else 4), repeat=2):
             i += 1
             yield {"op": "enlarge_shrink", "a": [values(h, w, rng, wide=True), rmask(h, w, rng)], "rs": [h + e0, w + e1], "mpv": i % 2,
-                   "var": VARS[i % 6], "sc": SCS[i % 7]}
+                   "var": VARS[i % len(VARS)], "sc": SCS[i % 7]}
         for d0, d1 in itertools.product(range(-2, 5), repeat=2):   # trimmed_array_from with arbitrary image shapes
             ish = [h - d0, w - d1]
             if ish[0] < 0 or ish[1] < 0: continue
@@ -157,10 +171,10 @@ def gen_inputs(tier, rng):
                 if not all(all(r) for r in mk) or i % 8 == 0:
                     yield {"op": "mask_zoom", "m": mk, "g": list(GEOMS[i % len(GEOMS)])}
                     yield {"op": "zoom_geo", "m": mk, "v": values(h, w, rng), "g": list(GEOMS[(i // 3) % len(GEOMS)]),
-                           "b": [0, 1, -1, 2, -2, 0, -3][i % 7], "var": VARS[i % 6]}
-                    if i % 3 == 0: yield {"op": "zoom", "a": [values(h, w, rng, wide=True), mk], "b": -1 - (i // 3) % 2, "var": VARS[i % 6], "sc": SCS[i % 7]}
+                           "b": [0, 1, -1, 2, -2, 0, -3][i % 7], "var": VARS[i % len(VARS)]}
+                    if i % 3 == 0: yield {"op": "zoom", "a": [values(h, w, rng, wide=True), mk], "b": -1 - (i // 3) % 2, "var": VARS[i % len(VARS)], "sc": SCS[i % 7]}
                 for b in ((0, 1, 2) if big and h * w <= 8 else (i % 3,)):
-                    yield {"op": "zoom", "a": [values(h, w, rng, wide=True), mk], "b": b, "var": VARS[i % 6], "sc": SCS[i % 7]}
+                    yield {"op": "zoom", "a": [values(h, w, rng, wide=True), mk], "b": b, "var": VARS[i % len(VARS)], "sc": SCS[i % 7]}
     yield {"op": "zoom", "a": [values(2, 2, rng), rmask(2, 2, rng, 0.5)], "b": -1}
     # --- Imaging.apply_mask
     lim = 8 if big else 6
@@ -208,7 +222,7 @@ def gen_inputs(tier, rng):
         return st + [list(x) for x in st[:2] if x[0] != "edit"]                         # and the first observations once more
     for n in range(500 if big else 130):
         h, w = rng.randint(1, 5), rng.randint(1, 5); mk = rmask(h, w, rng, rng.choice([0.0, 0.3, 0.6]))
-        yield {"op": "hist_arr", "a": [values(h, w, rng, wide=True), mk], "var": VARS[n % 6], "sc": SCS[n % 7], "steps": arr_steps(h, w, mk)}
+        yield {"op": "hist_arr", "a": [values(h, w, rng, wide=True), mk], "var": VARS[n % len(VARS)], "sc": SCS[n % 7], "steps": arr_steps(h, w, mk)}
     for n in range(400 if big else 110):
         h, w = rng.randint(1, 5), rng.randint(1, 5); mk = rmask(h, w, rng, rng.choice([0.3, 0.6, 0.85])); cur = [list(r) for r in mk]
         st = []
@@ -271,6 +285,7 @@ def mk_arr(aa, a, g=("1", "1", "0", "0"), var="fresh", sc=0):
     if var == "arith":
         x = aa.Array2D(values=v, mask=mask)
         return (x * 2.0) - x
+    if var == "copy": return copy.deepcopy(aa.Array2D(values=v, mask=mask))
     return aa.Array2D(values=v, mask=mask)
 @contextlib.contextmanager
 def cfg_native(on):
@@ -294,9 +309,6 @@ def fp_eq(f, g):
 def masked0(a):
     """what an Array2D built from (values, mask) holds natively: masked entries are zero"""
     return [[[0 if mk else v for v, mk in zip(rv, rm)] for rv, rm in zip(a[0], a[1])], [list(map(bool, r)) for r in a[1]]]
-def held(aa, a):
-    """(native values, mask) as held by Array2D(values=a[0], mask=a[1]): masked entries are zero"""
-    return a2out(mk_arr(aa, a))
 GEOM_CHK = GEOMS[1]
 def geom_kept(obj):
     """the resized / padded / trimmed object keeps pixel scales and origin (objects are built with GEOM_CHK)"""
